@@ -127,6 +127,20 @@ func makeArray(t reflect.Type, n int) array {
 	return array{elem: elem, size: size, len: n}
 }
 
+// growArray returns an array of n elements starting with the elements of a
+// (truncated if n is less than the length of a).
+func growArray(t reflect.Type, a array, n int) array {
+	b := makeArray(t, n)
+	if n > 0 && a.len > 0 {
+		// Copy through reflect so the runtime sees typed memory moves.
+		st := reflect.SliceOf(t)
+		dst := reflect.NewAt(st, unsafe.Pointer(&slice{ptr: b.elem, len: b.len, cap: b.len})).Elem()
+		src := reflect.NewAt(st, unsafe.Pointer(&slice{ptr: a.elem, len: a.len, cap: a.len})).Elem()
+		reflect.Copy(dst, src)
+	}
+	return b
+}
+
 func (a array) index(i int) value {
 	return value{ptr: unsafe.Pointer(uintptr(a.elem) + (uintptr(i) * a.size))}
 }
